@@ -37,7 +37,7 @@ func TestVerif_C19(t *testing.T) {
 	}
 	cA, cB := vfCollidingNames()
 	depth := 3
-	starts := []int{8, 9, 12}
+	starts := []int{8, 9, 12, -1} // -1: ten attributes, nine deleted again (dense storage with one record left)
 	if r.Thorough() {
 		depth = 4
 	}
@@ -86,15 +86,24 @@ func TestVerif_C19(t *testing.T) {
 		for _, k := range starts {
 			c, k := c, k
 			prefix := []vfOp{{Op: "mkds", Path: "/d", Type: "f64", Dims: []uint64{3}}, {Op: "mkds", Path: "/other", Type: "i32", Dims: []uint64{2}}, {Op: "write", Path: "/d", Pat: 1}}
-			for i := 0; i < k; i++ {
+			nfill := k
+			if k < 0 {
+				nfill = 10 // start state -1: dense storage emptied down to one attribute (fill00)
+			}
+			for i := 0; i < nfill; i++ {
 				prefix = append(prefix, vfOp{Op: "attr", Path: "/d", Name: fmt.Sprintf("fill%02d", i), Value: []string{"i64", "s1", "f32"}[i%3]})
+			}
+			if k < 0 {
+				for i := nfill - 1; i >= 1; i-- {
+					prefix = append(prefix, vfOp{Op: "delattr", Path: "/d", Name: fmt.Sprintf("fill%02d", i)})
+				}
 			}
 			d := depth
 			// full depth for the default configuration with toggles, for rebalancing off, and for
 			// one configuration of each family (lazy, lazy+incremental, smart); the other parameter
 			// sets of a family one step less (quick tier: full depth only from 9 attributes)
 			fullDepth := map[string]bool{"default+toggles": true, "rebalancing-off": true, "lazy(0.2,default,100)": true, "lazy+incremental(1us,1us)": true, "smart(default)": true}
-			if !fullDepth[c.name] || (k != 9 && !r.Thorough()) {
+			if !fullDepth[c.name] || (k != 9 && !(k == -1 && (c.name == "rebalancing-off" || c.name == "default+toggles")) && !r.Thorough()) {
 				d = depth - 1
 			}
 			en := func(hist []vfOp) []vfOp {
